@@ -703,7 +703,7 @@ func init() {
 	core.Register(&core.Prop{
 		ID:        "C08",
 		Technique: "definition-fault monitor: struct definitions with planted invalid constructs at random nesting positions, each CodecForType/Marshal/Unmarshal under panic capture in a child process and classified reject / working codec; sentinel values in unexported and \"-\" fields",
-		Rule: "every 19th case: maps with pointer keys (accepted types) at top level, as a field and in the repeated form, compared by pointee, earlier results re-read after later decodes. Otherwise two thirds of the cases: one of 9 families of invalid constructs (missing tag, unparsable index, negative index, duplicate indexes incl. across skipped fields, option without codec, unsupported kind, slice of float pointers, slice of slices of length-delimited elements, maps nested where they cannot be encoded) or a valid neighbour, wrapped 0-3 levels deep as field / pointer target / slice element / map value / map key / pointer field; must-reject families must yield an error from CodecForType, Marshal and Unmarshal without a panic, valid neighbours must yield a codec that round-trips. " +
+		Rule: "among the planted definitions: pointers to and slices of types whose registered codec is fixed width although their kind is not a float (null.Float, a codec the caller registered): an error, or a codec that brings fully present values back. every 19th case: maps with pointer keys (accepted types) at top level, as a field and in the repeated form, compared by pointee, earlier results re-read after later decodes. Otherwise two thirds of the cases: one of 9 families of invalid constructs (missing tag, unparsable index, negative index, duplicate indexes incl. across skipped fields, option without codec, unsupported kind, slice of float pointers, slice of slices of length-delimited elements, maps nested where they cannot be encoded) or a valid neighbour, wrapped 0-3 levels deep as field / pointer target / slice element / map value / map key / pointer field; must-reject families must yield an error from CodecForType, Marshal and Unmarshal without a panic, valid neighbours must yield a codec that round-trips. " +
 			"one third: generated valid definitions with unexported and \"-\" fields: accepted, round-trip, encoding unchanged when those fields are set (via unsafe), and sentinels in them survive Unmarshal. distinct = distinct (definition, configuration) pairs",
 		Assume: []string{"model.Validate states which definitions the documentation accepts"},
 		Plan: func(tier string) []core.Lane {
